@@ -13,9 +13,46 @@ import (
 // ---------------------------------------------------------------------------
 // maps
 
+func constStrKey(key Value) (string, bool) {
+	if t, ok := key.(*sym.Term); ok && t.Const && t.Sort.K == sym.KStr {
+		return t.S, true
+	}
+	return "", false
+}
+
+func (mp *Map) reindex() {
+	mp.strIdx = map[string]*mapEntry{}
+	mp.symbolic = false
+	for _, e := range mp.entries {
+		if e.deleted {
+			continue
+		}
+		if k, ok := constStrKey(e.key); ok {
+			mp.strIdx[k] = e
+		} else {
+			mp.symbolic = true
+		}
+	}
+}
+
 func (m *Machine) mapFind(mp *Map, key Value) *mapEntry {
 	if mp == nil {
 		return nil
+	}
+	// fast path: constant string key against constant string keys only
+	if k, ok := constStrKey(key); ok && len(mp.entries) > 16 {
+		if mp.strIdx == nil || len(mp.strIdx) == 0 {
+			mp.reindex()
+		}
+		if !mp.symbolic {
+			e := mp.strIdx[k]
+			if e != nil && !e.deleted {
+				return e
+			}
+			if e == nil {
+				return nil
+			}
+		}
 	}
 	for _, e := range mp.entries {
 		if e.deleted {
@@ -33,12 +70,25 @@ func (m *Machine) mapInsert(mp *Map, key, val Value) {
 		e.val = copyVal(val)
 		return
 	}
-	mp.entries = append(mp.entries, &mapEntry{key: copyVal(key), val: copyVal(val)})
+	ne := &mapEntry{key: copyVal(key), val: copyVal(val)}
+	mp.entries = append(mp.entries, ne)
+	if mp.strIdx != nil {
+		if k, ok := constStrKey(key); ok {
+			mp.strIdx[k] = ne
+		} else {
+			mp.symbolic = true
+		}
+	}
 }
 
 func (m *Machine) mapDelete(mp *Map, key Value) {
 	if e := m.mapFind(mp, key); e != nil {
 		e.deleted = true
+		if mp.strIdx != nil {
+			if k, ok := constStrKey(e.key); ok {
+				delete(mp.strIdx, k)
+			}
+		}
 	}
 }
 
@@ -249,6 +299,7 @@ func (m *Machine) callBuiltin(caller *frame, fn *ssa.Builtin, args []Value) Valu
 				for _, e := range x.entries {
 					e.deleted = true
 				}
+				x.strIdx = nil
 			}
 		default:
 			m.unsupported("clear of %T", x)
